@@ -161,10 +161,16 @@ def cviart_gate(rng):
     calls = []
     orig = est.CVI_match
 
+    step_labs = {}
+    touched = []
+
     def wrapped(x, w, c_, params, extra, cache):
         labs = np.array(est.labels_).copy()
+        step_labs.setdefault(extra["index"], labs)        # the labelling before the step
         r = orig(x, w, c_, params, extra, cache)
-        calls.append((extra["index"], int(c_), bool(r), labs, len(est.W)))
+        if not np.array_equal(np.asarray(est.labels_), labs):
+            touched.append((extra["index"], int(c_)))
+        calls.append((extra["index"], int(c_), bool(r), step_labs[extra["index"]], len(est.W)))
         return r
     est.CVI_match = wrapped
     summ = {"estimator": "CVIART", "validity": validity, "rho": rho, "X": X.tolist()}
@@ -173,6 +179,9 @@ def cviart_gate(rng):
             est.fit(X)
     except Exception as e:
         return None       # sklearn rejects degenerate labelings (a single label): outside the API's domain
+    if touched:
+        return {"signature": "CVIART/gate", "text": f"evaluating candidate cluster {touched[0][1]} for sample {touched[0][0]} changed the live labelling "
+                "(later candidates are not compared with the labelling before the step)", "replay": summ}
     for idx, c_, r, labs, nW in calls:
         if nW < 2:
             continue
